@@ -169,8 +169,10 @@ let dump (f : fs) =
           (match List.assoc_opt ino !seen with
            | Some c -> c
            | None -> let c = List.length !seen in seen := !seen @ [(ino, c)]; c) in
-        let bytes = s_ (get_file f i).f_bytes in
-        Printf.printf "D %s file i%d %d %s\n" (hex rel) cls (String.length bytes) (fnv bytes)) ents;
+        let x = get_file f i in
+        let bytes = s_ x.f_bytes in
+        Printf.printf "D %s file i%d %d %s %c %s\n" (hex rel) cls (String.length bytes) (fnv bytes)
+          (if x.f_readable then 'r' else '-') (if String.length bytes <= 4096 then hex bytes else "-")) ents;
   print_endline "dump-end"
 
 (* ---------- the driver ---------- *)
